@@ -96,7 +96,14 @@ void runC14(const Scenario& sc, vf::Result& res) {
     // split ops at the probe marker
     size_t mark = sc.ops.size();
     for (size_t i = 0; i < sc.ops.size(); i++) if (sc.ops[i] == "mark probe") mark = i;
-    if (mark == sc.ops.size()) { res.counters["no_probe"]++; return; } // minimiser removed the marker: nothing to compare
+    bool haveGo = false, havePos = false, haveClear = false;
+    for (size_t i = mark + 1; i < sc.ops.size(); i++) {
+        if (vf::startsWith(sc.ops[i], "send go")) haveGo = i + 1 < sc.ops.size() && sc.ops[i + 1] == "wait_bestmove"; // the probe must run to completion
+        if (vf::startsWith(sc.ops[i], "send position")) havePos = true;
+        if (sc.ops[i] == "send setoption name Clear Hash") haveClear = true;
+    }
+    // a (minimised) scenario without the complete probe part has nothing to compare
+    if (mark == sc.ops.size() || !haveGo || !havePos || !haveClear) { res.counters["no_probe"]++; return; }
     Scenario a = sc, b = sc, a2 = sc;
     a.ops.clear();
     b.ops.clear();
